@@ -76,7 +76,7 @@ def _is_from_repo(exc):
 
 def execute_case(prop, sub, case, report, counting=True):
     """Run one case through a sub-check. Returns None, or a violation dict."""
-    from vf.core import Mismatch, Skip, case_hash
+    from vf.core import Mismatch, Skip, case_hash, HarnessError
     from vf import findings
     label = None
     # process-wide numeric state a previous case may have left behind (numpy error handling) is reset: every case is judged
@@ -110,6 +110,15 @@ def execute_case(prop, sub, case, report, counting=True):
     except Exception as e:  # noqa
         inner = _is_from_repo(e)
         if inner is None:
+            if isinstance(e, (KeyError, IndexError, ValueError, TypeError, AttributeError, ZeroDivisionError)) and not isinstance(e, HarnessError):
+                # the check could not even interpret what evo handed back (a missing statistic or array, a wrong shape or
+                # type): on the unchanged tree this never happens (it would show in every run); it is reported as what it is
+                tb = traceback.extract_tb(e.__traceback__)
+                where = "%s:%d" % (os.path.basename(tb[-1].filename), tb[-1].lineno) if tb else "?"
+                return {"sub": sub.name, "case": case,
+                        "message": "evo's output could not be interpreted by the check (%s at %s: %s) - missing/malformed key, array or value" % (
+                            type(e).__name__, where, str(e)[:200]),
+                        "tags": {"observed": "malformed_output", "exc_type": type(e).__name__}}
             raise
         tags = {"observed": "unexpected_exception", "exc_type": type(e).__name__,
                 "evo_file": inner[0], "evo_func": inner[1]}
@@ -403,8 +412,9 @@ def main(argv=None):
         viol_paths.append(path)
         print("violation detail: sub=%s %s" % (v["sub"], v["message"][:1500]))
         print("VIOLATION property=%s replay=%s" % (prop, path))
-        if exit_code == 0:
-            exit_code = 1
+        # a violation with its replay stands on its own, also when other units of the same run crashed the harness
+        # (a broken tree can do both); harness errors alone exit 2
+        exit_code = 1
 
     wall = time.time() - t0
     if not args.no_evidence and not args.sub:
